@@ -79,6 +79,11 @@ finding is repaired; kept explicit so that the negation witness survives the rep
 def gitFilePreOutsideTry : Program :=
   { gitFile with closePre := gitFile.closePre.map (fun p => (p.1, false)) }
 
+/-- the program with abort() closing the file object OUTSIDE any try/finally — the code as it was
+when finding F-C07-abort-file-close-error-skips-unlink was recorded (identical to `gitFile` until
+that finding is repaired; explicit so that the negation witness survives the repair) -/
+def gitFileAbortCloseOutsideTry : Program := { gitFile with abortCloseInTry := false }
+
 /-- API calls on a handle -/
 inductive Op where
   | write (d : Bytes)
@@ -319,8 +324,15 @@ def withCaller (fsyncOn permOn : Bool) (ds : List Bytes) (finalised : Bool) : Ac
     (if Gen.Lock.exitAbortsOnException then [.abort] else [.close])
     (if finalised && Gen.Lock.delAborts then [.abort] else [])
 
-/-- `Index.write` before any repair: `except: f.close(); raise` -/
+/-- `Index.write` before commit 3b15974: `except: f.close(); raise` -/
 def indexWriteCaller (fsyncOn permOn : Bool) (ds : List Bytes) : Actor :=
   Actor.init fsyncOn permOn (withBody ds) [.close] [.close]
+
+/-- `Index.write` as the source says it is NOW: one `except:` around the writes and the close, whose
+handler the translator reads off (`f.close()` before 3b15974, `f.abort()` since) -/
+def indexWriteCallerNow (fsyncOn permOn : Bool) (ds : List Bytes) : Actor :=
+  Actor.init fsyncOn permOn (withBody ds)
+    (if Gen.Lock.indexWriteErrCloses then [.close] else [.abort])
+    (if Gen.Lock.indexWriteErrCloses then [.close] else [.abort])
 
 end Dulwich.Lock
